@@ -66,9 +66,28 @@ func kMerge(c J) interface{} {
 }
 
 // parse: {"s": text, "cfg": {...}|null}
+// pristine package-level parser configuration: using the library must not change what parse.Value means
+var pristineParseCfg = parse.DefaultConfig
+
 func kParse(c J) interface{} {
 	var v interface{}
 	var err error
+	// "pre": other uses of the library before the parse ({from, opts, name, ropts}: create a config, read one setting)
+	for _, p := range arr(c, "pre") {
+		pj := p.(map[string]interface{})
+		func() {
+			defer func() { _ = recover() }()
+			if cfg, err := ucfg.NewFrom(buildValue(pj["from"]), buildOpts(pj["opts"])...); err == nil {
+				_, _ = cfg.String(str(pj, "name"), -1, buildOpts(pj["ropts"])...)
+				var m map[string]interface{}
+				_ = cfg.Unpack(&m, buildOpts(pj["ropts"])...)
+			}
+		}()
+	}
+	if parse.DefaultConfig != pristineParseCfg {
+		parse.DefaultConfig = pristineParseCfg
+		return J{"stateChanged": "parse.DefaultConfig"}
+	}
 	if c["cfg"] == nil {
 		v, err = parse.Value(str(c, "s"))
 	} else {
